@@ -1466,6 +1466,8 @@ def render_doc(doc):
             parts.append("nopse")
         if m["kind"]:
             parts.append(m["kind"])
+        for k, v, how in m.get("user_src", []):
+            parts.append("%s: %s" % (k, how))
         return (" {" + ", ".join(parts) + "}") if parts else ""
     out = []
     for r in doc["rules"]:
@@ -1477,13 +1479,44 @@ def render_doc(doc):
                 t += x["op"]
                 if x["sep"]:
                     t += "[%s]" % x["sep"]
+                if x.get("name"):
+                    t = "%s%s%s" % (x["name"], "?=" if x.get("bool") else "=", t)
                 syms.append(t)
             alts.append((" ".join(syms) if syms else "EMPTY") + meta_str(a["meta"]))
-        out.append("%s%s: %s;" % (r["name"], meta_str(r["meta"]), " | ".join(alts)))
+        ann = ("@%s\n" % r["ann"]) if r.get("ann") else ""
+        out.append("%s%s%s: %s;" % (ann, r["name"], meta_str(r["meta"]), " | ".join(alts)))
     out.append("terminals")
     for t in doc["terms"]:
-        out.append("%s: %s;" % (t["name"], ("'%s'" % t["str"]) if t["str"] else "/\\d+/"))
+        parts = []
+        if t.get("assoc"):
+            parts.append(t["assoc"])
+        if t.get("prio", -1) >= 0:
+            parts.append(str(t["prio"]))
+        for k, v, how in t.get("user_src", []):
+            parts.append("%s: %s" % (k, how))
+        out.append("%s: %s%s;" % (t["name"], ("'%s'" % t["str"]) if t["str"] else "/\\d+/",
+                                  (" {" + ", ".join(parts) + "}") if parts else ""))
     return "\n".join(out) + "\n"
+
+
+def norm_doc(doc):
+    """Fills the optional fields of an abstract document (assignment names, user meta-data,
+    annotations, terminal meta-data) so that every record has the same shape for TLC."""
+    def nm(m):
+        m = dict(m)
+        m["user"] = [[k, v] for k, v, how in m.get("user_src", [])]
+        m.pop("user_src", None)
+        return m
+    rules = []
+    for r in doc["rules"]:
+        rules.append(dict(name=r["name"], ann=r.get("ann", ""), meta=nm(r["meta"]),
+                          alts=[dict(meta=nm(a["meta"]),
+                                     syms=[dict(ref=x["ref"], str=x["str"], op=x["op"], sep=x["sep"],
+                                                name=x.get("name", ""), bool=bool(x.get("bool", False)))
+                                           for x in a["syms"]]) for a in r["alts"]]))
+    terms = [dict(name=t["name"], str=t["str"], prio=t.get("prio", -1), assoc=t.get("assoc", ""),
+                  user=[[k, v] for k, v, how in t.get("user_src", [])]) for t in doc["terms"]]
+    return dict(rules=rules, terms=terms)
 
 
 NOMETA = dict(prio=-1, assoc="", nops=False, nopse=False, kind="")
@@ -1492,6 +1525,21 @@ NOMETA = dict(prio=-1, assoc="", nops=False, nopse=False, kind="")
 def random_doc(rng):
     terms = [dict(name="Ta", str="a"), dict(name="Tb", str="b"), dict(name="Tc", str="c"),
              dict(name="Comma", str=","), dict(name="Num", str="")]
+
+    def user(p):
+        out = []
+        for k in ("x", "y", "zz"):
+            if rng.random() < p:
+                v, how = rng.choice([("5", "5"), ("0", "0"), ("z", "'z'"), ("a b", '"a b"'), ("true", "true"),
+                                     ("false", "false"), ("1.5", "1.5")])
+                out.append((k, v, how))
+        return out
+    for t in terms:
+        if rng.random() < 0.25:
+            t["prio"] = rng.choice([1, 5, 20])
+        if rng.random() < 0.2:
+            t["assoc"] = rng.choice(["left", "right"])
+        t["user_src"] = user(0.12)
     nr = rng.randint(1, 3)
     names = ["R%d" % i for i in range(nr)]
 
@@ -1524,14 +1572,25 @@ def random_doc(rng):
                     x["op"] = rng.choice(["?", "*", "+"])
                     if x["op"] in "*+" and rng.random() < 0.4:
                         x["sep"] = rng.choice(["Comma", "Tc"])
+                if rng.random() < 0.25:
+                    used = {y.get("name") for y in syms}
+                    nm_ = rng.choice([n_ for n_ in ("a", "b", "val", "left") if n_ not in used] or [""])
+                    if nm_:
+                        x["name"] = nm_
+                        x["bool"] = rng.random() < 0.35
                 syms.append(x)
             if not syms and rng.random() < 0.5:
                 syms = [dict(ref="EMPTY", str=False, op="", sep="")]
             m = meta(0.35)
             if rng.random() < 0.25:
-                m["kind"] = rng.choice(["Aa", "Bb", "Cc"])
+                free = [k_ for k_ in ("Aa", "Bb", "Cc") if k_ not in {a_["meta"]["kind"] for a_ in alts}]
+                if free:
+                    m["kind"] = rng.choice(free)
+            m["user_src"] = user(0.15)
             alts.append(dict(syms=syms, meta=m))
-        rules.append(dict(name=n, meta=meta(0.3), alts=alts))
+        rm = meta(0.3)
+        rm["user_src"] = user(0.2)
+        rules.append(dict(name=n, meta=rm, alts=alts, ann=rng.choice(["vec", "other"]) if rng.random() < 0.1 else ""))
     return dict(rules=rules, terms=terms)
 
 
@@ -1598,8 +1657,11 @@ def stage_builder(work, tier, seed):
             aborts.append(dict(id=r["id"], cls=r.get("outcome"), msg=(r.get("msg") or r.get("g", {}).get("msg", ""))[:200]))
         if "err" in r.get("g", {"err": 1}):
             rejected.append((r["id"], r.get("g", {}).get("err"), r.get("msg", "")[:100]))
+            recs.append({"id": r["id"], "doc": norm_doc(meta[r["id"]][0]),
+                         "g": {"err": str(r.get("g", {}).get("err", r.get("outcome", "?"))),
+                               "msg": (r.get("msg") or r.get("g", {}).get("msg", ""))[-160:]}})
             continue
-        recs.append({"id": r["id"], "doc": meta[r["id"]][0], "g": r["g"]})
+        recs.append({"id": r["id"], "doc": norm_doc(meta[r["id"]][0]), "g": r["g"]})
     envs = []
     for k in range(run.NCPU):
         part = recs[k::run.NCPU]
